@@ -293,9 +293,16 @@ AIter ==           \* on_iteration(): if latched, engage(); execute(); latch := 
 
 ADisable == UserDone /\ sh.auto
 
+\* on_enable() of a plain StateMachine component (the robot calls it on entering teleop / autonomous): nothing happens
+PlainEnable ==
+    /\ AtTop /\ ~sh.auto /\ out' = <<>> /\ br' = <<>> /\ post' = FALSE
+    /\ UNCHANGED <<sh, se, eng, cur, start, now, ran, st0, exp, dur, ntcur, autoOn, latchSet, stack, acted, req,
+                   ncalls, nsn, dflag, udone, pure, inAuto, stale>>
+
 (* event-indexed next-state relation: the single definition used by MC, Sim and Trace *)
 EvNext(ev) ==
     CASE ev.e = "engage"   -> Engage(ev.init, ev.force)
+      [] ev.e = "enable"   -> PlainEnable
       [] ev.e = "done"     -> UserDone
       [] ev.e = "disable"  -> UserDone /\ AtTop
       [] ev.e = "tick"     -> Tick(ev.d)
@@ -313,6 +320,7 @@ EvNext(ev) ==
 \* MC_MagicSM checks that the two agree)
 EvEnabled(ev) ==
     CASE ev.e \in {"tick", "execute", "disable"} -> AtTop
+      [] ev.e = "enable"  -> AtTop /\ ~sh.auto
       [] ev.e = "engage"  -> AtTop \/ InState
       [] ev.e = "setdur"  -> AtTop /\ ev.s \in States /\ Timed(ev.s)
       [] ev.e = "done"    -> AtTop \/ InState
